@@ -789,7 +789,21 @@ func (x *c07Run) genericLegal() map[string]bool {
 				ok = false
 			}
 			if len(x.rwrites) >= 2 {
-				L["panic:twice"] = true
+				// "writing twice panics" belongs to the no-cancellation sentence: a second Write invoked after a
+				// cancel call / the context cancellation has completed must have no effect
+				w2 := x.rwrites[1]
+				twice := x.sc.Ctx != "pre"
+				for _, d := range x.cancels {
+					if d.end != 0 && d.end < w2.start {
+						twice = false
+					}
+				}
+				if x.ctxEnd != 0 && x.ctxEnd < w2.start {
+					twice = false
+				}
+				if twice {
+					L["panic:twice"] = true
+				}
 				if !term {
 					ok = false
 				}
